@@ -86,8 +86,14 @@ async def run_schedule(config: dict, prefix: list[int], rng=None) -> Outcome:
                 out.sender_errors.append(exc_info(exc))
                 return
 
+    wake_events = [asyncio.Event() for _ in config["wakes"]]
+    wake_started = [False] * len(config["wakes"])
+    gated_wakes = bool(config.get("gated_wakes"))
+
     async def listener() -> None:
-        for n in config["wakes"]:
+        for j, n in enumerate(config["wakes"]):
+            if gated_wakes:
+                await wake_events[j].wait()
             kind, exc = await stepper.rx(f"{n};255;3;0;{config.get('listener_type', wake_type)};1\n")
             if kind == "error":
                 info = exc_info(exc)
@@ -113,6 +119,10 @@ async def run_schedule(config: dict, prefix: list[int], rng=None) -> Outcome:
         out.max_pending = max(out.max_pending, len(transport.pending))
         enabled: list[tuple[str, int]] = [("write", i) for i in range(len(transport.pending))]
         enabled += [("start", i) for i, flag in enumerate(started) if not flag]
+        if gated_wakes:
+            nxt = next((j for j, flag in enumerate(wake_started) if not flag), None)
+            if nxt is not None:
+                enabled.append(("wake", nxt))
         if faults_used < int(config.get("max_faults") or 0):
             enabled += [("fail", i) for i in range(len(transport.pending))]
         if not enabled:
@@ -139,6 +149,10 @@ async def run_schedule(config: dict, prefix: list[int], rng=None) -> Outcome:
             future, line, attempt = transport.pending.pop(index)
             out.labels.append(f"w{attempt}")
             future.set_result(False)
+        elif kind == "wake":
+            wake_started[index] = True
+            out.labels.append(f"K{index}")
+            wake_events[index].set()
         elif kind == "fail":
             future, line, attempt = transport.pending.pop(index)
             out.labels.append(f"F{attempt}")
